@@ -118,7 +118,7 @@ def dml_histories(ctx, cov):
     cov["dml_histories"] = dict(histories=len(judged), statements=stmts, statements_that_changed_the_table=changed, refused_statements=refused,
                                 rejected_by_tlc=len(bad),
                                 rule="table from SqlSemGen!Tables5 / TablesNull5 / TablesKw5, 1-3 statements from Dmls5 x Wheres5 (+ WheresBad5, inserted rows); "
-                                     "every assignment list and every WHERE at least once; after each statement SELECT * is compared by TLC with SqlSem!DmlAfter",
+                                     "every assignment list and every WHERE at least once; after each statement SELECT * is compared by TLC with SqlSem!DmlRows (StepOK / HistoryOK)",
                                 sample=dict(sql=[x.get("sql") for x in judged[0]["raw"]], rows_after=judged[0]["hres"][-1]["rows"]) if judged else None)
     cov["traces_validated_against_impl"] += len(judged)
 
